@@ -64,9 +64,23 @@ void legacy_on_combined()
     EXPECT( rsp.size() == 7 && ( rsp[ 2 ] == 0x01 ) == oob_selected, "OOB is selected exactly when both pairing PDUs carry the OOB flag (Core Vol 3 Part H 2.3.5.1)" );
 }
 
+// F40: LESC request on the combined manager: the response always advertises OOB flag 0 (lesc_local_io_caps), the selection uses the looked-up data
+void lesc_on_combined()
+{
+    oob.asked = 0;
+    sm_fixture< b::security_manager, b::oob_authentication_callback< oob_t, oob > > f;
+    // Pairing Request: DisplayYesNo, *no* OOB data at the central, SC | MITM | bonding
+    const auto rsp = f.in( { 0x01, 0x01, 0x00, 0x0d, 0x10, 0x00, 0x00 } );
+    dump( "security_manager (LESC request, central without OOB data): pairing response", rsp );
+    const bool oob_selected = f.connection_data_.lesc_pairing_algorithm() == b::details::lesc_pairing_algorithm::oob_authentication;
+    std::printf( "selected method is OOB: %d, advertised OOB flag: %d, OOB flag of the request: 0\n", int( oob_selected ), rsp.size() == 7 ? rsp[ 2 ] : -1 );
+    EXPECT( rsp.size() == 7 && ( rsp[ 2 ] == 0x01 ) == oob_selected, "LESC: OOB is selected exactly when one of the two pairing PDUs carries the OOB flag" );
+}
+
 int main()
 {
     legacy_on_combined();
+    lesc_on_combined();
     run< b::security_manager >( "security_manager (LESC request)" );
     run< b::lesc_security_manager >( "lesc_security_manager" );
     REPLAY_END();
